@@ -49,7 +49,7 @@ def check(run):
     # sawtooth: grow past the usual resize thresholds, drain below a quarter / to empty, refill
     for kind in ("queue", "stack"):
         ins, rem = ("Enqueue", "Dequeue") if kind == "queue" else ("Push", "Pop")
-        for peak in ((70, 130) if run.quick() else (70, 130, 300, 1100)):
+        for peak in ((70, 300, 1100) if run.quick() else (70, 130, 300, 1100, 5000)):
             p = [dict(op="Reset", kind=kind)]
             v = 0
             for target in (peak, peak // 5, peak // 2, 0, 5, 0):
